@@ -370,6 +370,16 @@ def _pwr(pm, v):
     return enc.pos(pm.adsb.position_with_ref(hx(v), la, lo), v["kind"])
 
 
+@reg("adsb.position_with_ref.frac")
+def _pwrf(pm, v):
+    # a reference that is not on the 2^20 grid: the fractions rn / rd and sn / sd of a degree as the nearest floats
+    la, lo = v["rn"] / v["rd"], v["sn"] / v["sd"]
+    if v.get("via", 0) == 0:
+        return enc.pos(pm.adsb.position_with_ref(hx(v), la, lo), v["kind"])
+    f = pm.adsb.airborne_position_with_ref if v["kind"] == "air" else pm.adsb.surface_position_with_ref
+    return enc.pos(f(hx(v), la, lo), v["kind"])
+
+
 @reg("adsb.airborne_position_with_ref")
 def _apwr(pm, v):
     la, lo = _ref(v)
